@@ -29,6 +29,7 @@ At(i) == [k |-> "at", i |-> i]
 With(i, v) == [k |-> "with", i |-> i, v |-> v]
 StoreS(key, v) == [k |-> "stores", key |-> key, v |-> v]
 DeleteS(key) == [k |-> "deletes", key |-> key]
+HasIn(i) == [k |-> "hasIn", i |-> i]
 
 \* ---- initial arrays: every dense form, holes, the Array constructor forms
 Lit(els) == [c |-> "lit", els |-> els, n |-> 0]
@@ -70,7 +71,9 @@ ProbeCore ==
      Concat(<<>>), Concat(<< [t |-> "v", v |-> "i1"], [t |-> "arr", els |-> <<"f1.5", "hole", "obj">>] >>),
      K("flat"), With(0, "f1.5"), With(-1, "obj"), With(Big + 2, "i1"),
      K("toReversed"), K("toSorted"), ToSpliced(1, TRUE, 1, <<"sa">>), ToSpliced(0, FALSE, 0, <<>>),
-     K("map"), K("filter"), K("forEach"), K("okeys"), K("forin") >>
+     K("map"), K("filter"), K("forEach"), K("okeys"), K("forin"),
+     K("find"), K("findIndex"), K("findLast"), K("findLastIndex"), K("some"), K("every"), K("reduce"), K("reduceRight"),
+     K("flatMap"), K("from"), HasIn(0), HasIn(1), HasIn(Big), K("ovalues"), K("ownnames") >>
 
 \* ---- a genuinely far index (length 201): operations whose cost is linear in the length are affordable here
 Far == 200
